@@ -10,7 +10,7 @@ from harness import core
 from harness.checks import lifelib as L
 
 C09_KINDS = ['plain', 'body', 'form', 'raise', 'nf', 'm405', 'crash', 'json404', 'hdrs', 'badpath', 'badchunk', 'oversize',
-             'badchunk_json', 'oversize_json', 'mutq', 'latin', 'badmp_json', 'signed', 'forged', 'stat_s', 'stat_n', 'bigbody']
+             'badchunk_json', 'oversize_json', 'mutq', 'latin', 'badmp_json', 'signed', 'forged', 'stat_s', 'stat_n', 'bigbody', 'rewrite']
 C09_CONFIG = {'max_body_size': 1000, 'max_memfile_size': 128}
 
 
@@ -217,7 +217,8 @@ def run_c08(chk):
             if n0 is None:
                 _, _, taken0 = L.run_threads([app, app], reqs, [0] * 5000, acc if acc.ok else None, lf)
                 n0 = sum(1 for t in taken0 if t == 0)
-            for a in range(1, n0 + 1, 3 if thorough else max(1, n0 // 36)):
+            fine = k in ('rewrite',)       # short critical windows (listener dispatch): sweep every other line
+            for a in range(1, n0 + 1, (1 if fine else 3) if thorough else (2 if fine else max(1, n0 // 36))):
                 execute(reqs, [0] * a + [1] * 5000 + [0] * 5000, line_files=lf, tag='twin')
     judge(chk, 'C08', traces, closure_known=False)
     chk.extra['assumptions'] = ['pre-emption happens at accessor calls (quick) and additionally at every source line of ombott/* (thorough)',
@@ -627,6 +628,20 @@ def run_c10(chk):
     for _ in range(300 if thorough else 50):
         run_arr('two_apps_threads', [rng.randrange(2) for _ in range(150)], nthreads=2)
         run_arr('default_and_app', [rng.randrange(2) for _ in range(150)], nthreads=2)
+    # two applications with the default configuration on two threads, the second served completely at a swept source line of
+    # the first: the error objects of the default errors_map are shared by every application of the process
+    lf = (os.path.join(core.REPO, 'ombott'),)
+    a, b = fresh_apps()
+    for k in ('badmp_json', 'badchunk_json', 'json404', 'oversize_json'):
+        reqs = [(k, 'A'), (k, 'B')]
+        _, _, taken0 = L.run_threads([a, b], reqs, [0] * 5000, acc if acc.ok else None, lf)
+        n0 = sum(1 for t in taken0 if t == 0)
+        for x in range(1, n0 + 1, 3 if thorough else max(1, n0 // 30)):
+            res, tr, taken = L.run_threads([a, b], reqs, [0] * x + [1] * 5000 + [0] * 5000, acc if acc.ok else None, lf)
+            chk.count(1, ('two_apps_lines', k, x))
+            ok = [res[0] == solo(k, 'A'), res[1] == solo(k, 'B')]
+            if not all(ok):
+                report_resp(chk, 'C10', {'resp_ok': ok, 'res': res, 'reqs': reqs, 'sched': taken[:300], 'arr': 'two_apps_threads(lines)'})
     chk.sample({'kind': 'arrangement', 'name': traces[-1]['arr'], 'schedule': traces[-1]['sched'][:20], 'ok': traces[-1]['resp_ok']})
     # design level: the as-is model on recorded programs
     a, b = fresh_apps()
